@@ -33,6 +33,8 @@ def gen_seq(ctx, k):
     held_by_stall = False
     released = False
     used_root_stall = False
+    timed = [0]
+
     def checkpoint():
         sc.add('flush', 'quiesce', f'mark cp{len(cps)}')
         wired = set(fl.wire)
@@ -101,6 +103,22 @@ def gen_seq(ctx, k):
             if len(fl.wire) > before:
                 released = True
             sc.add(up(model.build_msg(ad, 0, STALL, bytes([1 if on else 0]))))
+        elif r < 0.86:
+            # time passes (also while nodes are stalled): 3 s, then every node with awaited answers or held messages says something unrelated, which is
+            # the library's opportunity to notice that the awaited answers have expired. Held messages only start waiting for THEIR answers
+            # when they are transmitted, however long they were held
+            fl.now += 3
+            sc.add('advance 3')
+            for ad3 in nodes:
+                n3 = fl.node(ad3)
+                rt3 = model.C('MSG_BM_CURRENT')
+                if (n3.out or n3.held) and not fl.could_answer_any(ad3, rt3):
+                    before = len(fl.wire)
+                    fl.uplink(ad3, rt3)
+                    if len(fl.wire) > before:
+                        released = True
+                    sc.add(up(answer_msg(rng, ad3, rt3)))
+            timed[0] += 1
         elif n.out:
             rt = rng.choice(model.resp_types(n.out[0]['type']))
             before = len(fl.wire)
